@@ -121,4 +121,16 @@ def fast_chain(rng):
                 sup="sup")
 
 
-FAMILIES = {"fast_chain": fast_chain, "rare_overrun": rare_overrun, "blocking_tie": blocking_tie, "advance_mixed": advance_mixed, "fast_node": fast_node, "same_generation_pair": same_generation_pair, "slow_side_node": slow_side_node, "slow_producer": slow_producer, "long_sink": long_sink}
+def early_arrival(rng):
+    """Non-blocking LATEST connection whose messages arrive much EARLIER than the declared (expected) delay: whether a message that has
+    arrived before a step's start is already known when the step's selection is closed must not depend on which thread ran first
+    (seeded change C02-d closed the selection on the EXPECTED arrival of the next message)."""
+    P = rng.choice([6, 8])
+    d = rng.choice([3, 4, 5])
+    return dict(nodes=[_n("prod", 0, 2, 0, [0, 1]), _n("sup", 1, P, 1, [1, 2]), _n("w", 2, 4, 0, [0, 1])],
+                conns=[_c("prod", "sup", window=4, delay=d, cdist=[0, 1]), _c("sup", "w", window=1, delay=0, cdist=[0, 1]),
+                       _c("w", "prod", name="in_w", skip=True, window=1, delay=d, cdist=[0])],
+                sup="sup")
+
+
+FAMILIES = {"early_arrival": early_arrival, "fast_chain": fast_chain, "rare_overrun": rare_overrun, "blocking_tie": blocking_tie, "advance_mixed": advance_mixed, "fast_node": fast_node, "same_generation_pair": same_generation_pair, "slow_side_node": slow_side_node, "slow_producer": slow_producer, "long_sink": long_sink}
